@@ -21,7 +21,7 @@ REQUIRED = ['C02.findPeaks_smul_pos', 'C02.findPeaks_smul_neg', 'C02.findPeaks_r
             'C02.sdMetric_smul', 'C02.rillingStop_smul', 'C02.fixedStop_indep',
             'C02.getNextImf_smul', 'C02.getNextImf_smul_envelope', 'C02.getNextImf_reverse', 'C02.getNextImf_reverse_envelope',
             'C02.sift_smul', 'C02.sift_smul_thr_silent', 'C02.sift_smul_envelope', 'C02.sift_reverse', 'C02.sift_reverse_envelope',
-            'C02.maskSift_ratio_smul_pos', 'C02.maskSift_ratio_smul_neg']
+            'C02.maskSift_ratio_smul_pos', 'C02.maskSift_ratio_smul_neg', 'C02.maskSift_pipeline_smul']
 TRUSTED = ['the theorems are about the models EmdModel.Extrema (tied to the code by the C05 ops PADEXT / ENV, here run on c*x and on reversed x), '
            'EmdModel.Sift (C04 / C01 ops GNI / SIFT) and EmdModel.Mask (C07 op MASKSIFT), the latter three run on x, on c*x with sift_thresh '
            'scaled by |c| and on reversed x; the model answers for the transformed inputs are compared with the implementation AND with the '
